@@ -271,6 +271,12 @@ func c19Exec(p c19Params) vs.ExecFn {
 			violation = fmt.Sprintf("a header accompanied by %s started a session (helper launched)", p.Veto)
 		case p.InputFirst && o.inputFirst != "ok" && o.inputFirst != "session still active" && o.inputFirst != "":
 			violation = o.inputFirst
+		case strings.HasPrefix(p.Server, "cancel-before") && p.Veto == "" && p.CtrlCMs < 0 && s.Stall == 0 && o.helperStarts > 0:
+			// (header and cancel are written back to back: the cancel is there long before the 100 ms the product waits)
+			violation = "the remote side cancelled before the helper was started, and the helper was launched all the same"
+		case strings.HasPrefix(p.Server, "cancel-before") && p.Veto == "" && p.CtrlCMs < 0 && s.Stall == 0 && !bytes.Contains(o.term, []byte("remote: transfer ended")):
+			// (without a Ctrl-C: after one, output is discarded until the remote side has been quiet, by design)
+			violation = "what the remote side printed after cancelling (before any helper ran) never reached the terminal"
 		case o.probeIn != 1:
 			violation = fmt.Sprintf("typed input reached the remote side %d times after the remote had been quiet for 0.7 s and 1.4 s (input is still being discarded)", o.probeIn)
 		case o.probe2 != 1:
